@@ -17,15 +17,53 @@ install_patches()
 def canon(r):
     t = re.sub(r", weak_type=True", "", repr(r))
     t = re.sub(r"\b(int64|int32|float64|float32|complex128|complex64|bool)\b", "num", t)
+    t = t.replace("defaultdict(<class 'int'>, ", "(")      # Counter-like containers print differently from plain dicts
     return " ".join(sorted(re.findall(r"[A-Za-z_0-9\.]+", t)))
 
 
 out = []
 cat = catalog(req["tier"]) + catalog(req["tier"], labels="str")[::5]
+
+
+def _templates():
+    """variable-arity templates with registered rules (resource declarations only; their semantics belong to C56/C58)"""
+    T = []
+    add = lambda lab, f: T.append(("T:" + lab, 0, f))
+    add("Adder[3,mod7]", lambda: qp.Adder(3, x_wires=[0, 1, 2], mod=7, work_wires=[3, 4]))
+    add("Adder[3,mod8]", lambda: qp.Adder(3, x_wires=[0, 1, 2], mod=8, work_wires=[3, 4]))
+    add("Adder[5,mod5,4w]", lambda: qp.Adder(5, x_wires=[0, 1, 2, 3], mod=5, work_wires=[4, 5]))
+    add("PhaseAdder[mod7]", lambda: qp.PhaseAdder(5, x_wires=[0, 1, 2, 3], mod=7, work_wire=[4]))
+    add("PhaseAdder[mod16]", lambda: qp.PhaseAdder(5, x_wires=[0, 1, 2, 3], mod=16, work_wire=[4]))
+    add("Multiplier[mod7]", lambda: qp.Multiplier(4, x_wires=[0, 1, 2], mod=7, work_wires=[3, 4, 5, 6, 7]))
+    add("OutAdder[mod7]", lambda: qp.OutAdder([0, 1], [2, 3], [4, 5, 6], mod=7, work_wires=[7, 8]))
+    add("OutMultiplier[mod8]", lambda: qp.OutMultiplier([0, 1], [2, 3], [4, 5, 6], work_wires=[7, 8]))
+    add("ModExp[mod7]", lambda: qp.ModExp([0, 1], [2, 3, 4], 2, 7, work_wires=[5, 6, 7, 8, 9]))
+    add("SemiAdder[3,3,2w]", lambda: qp.SemiAdder([0, 1, 2], [3, 4, 5], work_wires=[6, 7]))
+    add("SemiAdder[2,4,3w]", lambda: qp.SemiAdder([0, 1], [2, 3, 4, 5], work_wires=[6, 7, 8]))
+    add("C(SemiAdder)[ctrl work]", lambda: qp.ctrl(qp.SemiAdder([0, 1, 2], [3, 4, 5], work_wires=[]), control=[6], work_wires=[7, 8]))
+    add("C(SemiAdder)[base work]", lambda: qp.ctrl(qp.SemiAdder([0, 1, 2], [3, 4, 5], work_wires=[7, 8]), control=[6]))
+    add("C(SemiAdder)[cv0]", lambda: qp.ctrl(qp.SemiAdder([0, 1], [2, 3, 4], work_wires=[6, 7]), control=[5], control_values=[0]))
+    add("Incrementer[3]", lambda: qp.Incrementer([0, 1, 2]))
+    add("Incrementer[4,3w]", lambda: qp.Incrementer([0, 1, 2, 3], work_wires=[4, 5, 6]))
+    add("C(Incrementer)", lambda: qp.ctrl(qp.Incrementer([0, 1, 2], work_wires=[4, 5]), control=[3]))
+    add("QFT[3]", lambda: qp.QFT(wires=[0, 1, 2]))
+    add("IntegerComparator[5]", lambda: qp.IntegerComparator(5, geq=True, wires=[0, 1, 2, 3]))
+    add("IntegerComparator[3,lt]", lambda: qp.IntegerComparator(3, geq=False, wires=[0, 1, 2, 3], work_wires=[4]))
+    add("OutSquare", lambda: qp.OutSquare([0, 1], [2, 3, 4], work_wires=[5, 6, 7]))
+    add("SignedOutSquare", lambda: qp.SignedOutSquare([0, 1], [2, 3, 4], [5, 6, 7]))
+    add("Select[3]", lambda: qp.Select([qp.X(2), qp.Y(2), qp.Z(3)], control=[0, 1]))
+    add("QROM", lambda: qp.QROM(["01", "11", "10"], control_wires=[0, 1], target_wires=[2, 3], work_wires=None))
+    add("GroverOperator[3]", lambda: qp.GroverOperator(wires=[0, 1, 2]))
+    add("BasisRotation", lambda: qp.BasisRotation(wires=[0, 1, 2], unitary_matrix=np.array([[0, 1, 0], [1, 0, 0], [0, 0, 1.0]])))
+    return T
+
+
+import numpy as np
+cat = cat + _templates()
 for label, nv, f in cat:
     set_cfg(8, 8, nv)
     try:
-        op = bind_numeric(f(), [rng.uniform(-3, 3) for _ in range(3)])
+        op = f() if label.startswith("T:") else bind_numeric(f(), [rng.uniform(-3, 3) for _ in range(3)])
         params, args, kwargs = _get_decomp_args(op)
         rules = rules_for(op)
     except Exception as e:
